@@ -819,8 +819,47 @@ def selftest():
         assert len(enc_header(h, 0)[0]) + 3 <= 1023
 
 
+def case_parsed_edits(rec):
+    """wave 10: objects that CAME OUT of the parser are the caller's - editing one in place (a special's tick / tock, a split depth)
+    does not change what the parser returns next time, for the same cell or for another one.  State-inits with every (tick, tock) pair x two
+    cells each; every ordered pair (first parsed and edited, then parsed)."""
+    from pytoniq_core.tlb.account import StateInit, TickTock
+    from pytoniq_core.boc import Builder
+    rec.case('parsed-edits')
+    code = [Builder().store_uint(i + 1, 8).end_cell() for i in range(2)]
+    inits_ = [(t, k, ci, StateInit(split_depth=3 + ci, special=TickTock(t, k), code=code[ci]).serialize()) for t in (False, True) for k in (False, True) for ci in (0, 1)]
+    n = 0
+    for (t1, k1, c1, cell1) in inits_:
+        for (t2, k2, c2, cell2) in inits_:
+            rec.trans(2)
+            n += 1
+            try:
+                a = StateInit.deserialize(cell1.begin_parse())
+                ok_a = (a.special.tick, a.special.tock, a.split_depth) == (t1, k1, 3 + c1)
+                a.special.tick = not a.special.tick          # the caller edits what it was given
+                a.special.tock = not a.special.tock
+                a.split_depth = 30
+                b = StateInit.deserialize(cell2.begin_parse())
+                ok_b = (b.special.tick, b.special.tock, b.split_depth) == (t2, k2, 3 + c2)
+                again = b.serialize().hash == cell2.hash
+            except Exception as e:
+                rec.violation('parsed-edits:raises', f'state-init (tick {t1}, tock {k1}) parsed and edited, then (tick {t2}, tock {k2}) parsed: {exc_name(e)}: {e}', 'case_parsed_edits', {})
+                return
+            if not (ok_a and ok_b and again):
+                rec.violation('parsed-edits:state-init', f'a state-init with special (tick {t1}, tock {k1}) was parsed and the PARSED object edited in place; a state-init with special '
+                              f'(tick {t2}, tock {k2}) parsed afterwards comes back as (tick {b.special.tick}, tock {b.special.tock}, split_depth {b.split_depth}) / serialises to '
+                              f'{"the same" if again else "another"} cell', 'case_parsed_edits', {})
+                rec.outcome('PARSED-EDIT-LEAKS')
+                return
+    rec.trace(n)
+    rec.state(('parsed-edits', n))
+    rec.nontriv(('parsed-edits', n))
+    rec.covered('parsed-edits')
+    rec.outcome('ok')
+
+
 def shards(tier, seed):
-    out = [{'fn': 'case_wrappers', 'args': {}}, {'fn': 'case_isolation', 'args': {}}]
+    out = [{'fn': 'case_wrappers', 'args': {}}, {'fn': 'case_isolation', 'args': {}}, {'fn': 'case_parsed_edits', 'args': {}}]
     for first in range(len(EDIT_EVENTS)):
         out.append({'fn': 'shard_edit', 'args': {'first': first, 'depth': 3 if tier == 'quick' else 4}, 'prio': 1})
     for hi in range(len(headers())):
